@@ -49,6 +49,11 @@ where
   fn generate_replacement(&self, nm: &NodeMatch<D>) -> Underlying<D::Source> {
     (**self).generate_replacement(nm)
   }
+  // forward the range as well: without this a `&Fixer` falls back to the default range
+  // and ignores `expandStart`/`expandEnd`
+  fn get_replaced_range(&self, nm: &NodeMatch<D>, matcher: impl Matcher<D::Lang>) -> Range<usize> {
+    (**self).get_replaced_range(nm, matcher)
+  }
 }
 
 impl<D: Doc> Replacer<D> for Node<'_, D> {
